@@ -276,6 +276,34 @@ def check_tempo_list(kind, init, ch, qlen, ctx, only_query=None):
                 ctx.check("beats.distance", [F_(x) for x in bt] == expb, site=dict(site0), case=case, observed=[str(x) for x in bt], expected=[str(x) for x in expb])
     if only_query:
         return
+    # fine grid positions measured FROM each change (1/64, 1/96, 5/7 of a beat later): with a change on a fractional beat the
+    # absolute beat has a denominator beyond 96, yet the time lies on the snap grid of its segment - one call, all of them
+    fine = []
+    for i, (b, m, me, be) in enumerate(ch):
+        for d in (F(1, 64), F(1, 96), F(5, 7)):
+            nb = be + d
+            p = (me + int(nb // m), nb % m)
+            if rt.active_index(ch, p[0], p[1]) == i:
+                fine.append((p, i))
+    if fine:
+        ctx.transition(2)
+        ctx.case()
+        case = lambda: dict(casebase, fine_positions=[(p[0], str(p[1])) for p, _ in fine])
+        try:
+            exp = [rt.offset_of(init, ch, p[0], p[1], ts) for p, _ in fine]
+            o = tm.offsets([Snap(p[0], p[1], ch[i][1]) for p, i in fine])
+            okf = all(close(x, e) for x, e in zip(o, exp))
+            ctx.check("offsets.value", okf, site=dict(site0, fine=True), case=case, observed=[float(x) for x in o], expected=[float(e) for e in exp])
+            if okf:
+                s2 = tm.snaps(list(o), sn)
+                ok2 = all((a.measure, a.beat) == p for a, (p, _) in zip(s2, fine))
+                ctx.check("roundtrip.on_grid", ok2, site=dict(site0, fine=True), case=case, observed=[(int(a.measure), str(a.beat)) for a in s2], expected=[(p[0], str(p[1])) for p, _ in fine])
+                if kind == "B":
+                    bt = [F_(x) for x in tm.beats(list(o), sn)]
+                    mm = ch[0][1]
+                    ctx.check("beats.distance", bt == [mm * p[0] + p[1] for p, _ in fine], site=dict(site0, fine=True), case=case, observed=[str(x) for x in bt], expected=[str(mm * p[0] + p[1]) for p, _ in fine])
+        except Exception as e:
+            ctx.check("offgrid.raises", False, site=dict(site0, exc=type(e).__name__, fine=True), case=case, observed=f"{type(e).__name__}: {e}"[:200], expected="offsets/snaps")
     # ms -> position -> ms for off-grid times: within 1/192 beat at the active tempo; monotone beats
     offgrid = []
     for k, (b, m, me, be) in enumerate(ch):
